@@ -26,6 +26,7 @@ RULE = (
 ASSUMPTIONS = [
     "RegFutures from builder.new_register are live values held by the program and are not generated here",
     "the active-register audit reads Builder._mem_mgr._active_registers (skipped with a note if that attribute disappears)",
+    "EPR histories: handles returned by sequential keep requests are released through Qubit.active = False after the post routine consumed the pairs (qubit-id bookkeeping is C09's subject)",
 ]
 SHARDS = {"quick": 4, "thorough": 16}
 
@@ -96,8 +97,91 @@ def check(prog) -> Dict[str, Any]:
     return info
 
 
+EPR_KINDS = ["create_keep", "recv_keep", "create_measure", "recv_measure", "recv_keep_seq", "create_keep_seq"]
+
+
+@st.composite
+def st_epr_history(draw, max_ops=60):
+    mode = draw(st.sampled_from(["one-kind", "mixed"]))
+    kind = draw(st.sampled_from(EPR_KINDS))
+    n_ops = draw(st.integers(18, max_ops))
+    ops = []
+    for _ in range(n_ops):
+        k = kind if mode == "one-kind" else draw(st.sampled_from(EPR_KINDS))
+        ops.append([k, draw(st.integers(1, 2))])
+    return {"epr_ops": ops, "k_flush": draw(st.integers(1, 6)), "hardware": draw(st.sampled_from(["generic", "generic", "nv"])), "meta": {"mode": mode, "kind": kind, "ops": n_ops}}
+
+
+def check_epr(case) -> Dict[str, Any]:
+    """completed EPR operations (pairs are consumed before the next one) must keep compiling and flushing"""
+    from netqasm.sdk.build_types import GenericHardwareConfig, NVHardwareConfig
+    from netqasm.sdk.epr_socket import EPRSocket
+    from vlib import net, sim
+
+    hw = NVHardwareConfig(5) if case["hardware"] == "nv" else GenericHardwareConfig(5)
+    sock = EPRSocket("bob")
+    ctrl, conn = sim.fresh(sim.TraceExecutor, network_stack_cls=net.ScriptedNetworkStack, epr_sockets=[sock], hardware_config=hw, max_qubits=5)
+    stack = ctrl.network_stack
+    mm = getattr(conn.builder, "_mem_mgr", None)
+    out = conn.new_array(4)
+    done = 0
+    for i, (k, n) in enumerate(case["epr_ops"]):
+        try:
+            role = "create" if k.startswith("create") else "recv"
+            if k in ("create_keep", "recv_keep"):
+                qs = getattr(sock, k)(number=n)
+                stack.expect(role, "K", n)
+                for j, q in enumerate(qs):
+                    q.measure(future=out.get_future_index(j))
+            elif k in ("create_measure", "recv_measure"):
+                getattr(sock, k)(number=n)
+                stack.expect(role, "M", n)
+            else:
+                api = sock.create_keep if role == "create" else sock.recv_keep
+
+                def post(c, q, pair):
+                    q.measure(future=out.get_future_index(pair))
+
+                qs = api(number=n, sequential=True, post_routine=post)
+                stack.expect(role, "K", n)
+                # the post routine consumed every pair; the handles returned for them stay active on the connection
+                # (C09's open finding): release them through the public `active` setter so that this check is only
+                # about registers
+                for q in qs:
+                    q.active = False
+            done += 1
+            act = getattr(mm, "_active_registers", None)
+            if act:
+                raise Failure("active-registers-leak:" + k, case, f"after completed EPR operation {i} ({k}) the builder still has active registers {sorted(map(str, act))}")
+            if done % case["k_flush"] == 0:
+                conn.flush()
+        except Failure:
+            raise
+        except Exception as e:
+            msg = (str(e).splitlines() or [""])[0][:200]
+            if "could not find an available" in msg or "Ran out of M-registers" in msg or "no registers left" in msg:
+                raise Failure("register-exhaustion:" + k, case, f"EPR operation {i} ({k}) of the history: {type(e).__name__}: {msg}")
+            raise Failure(f"epr-history-raises:{k}:{type(e).__name__}", case, f"EPR operation {i} ({k}): {type(e).__name__}: {msg}")
+    try:
+        conn.flush()
+    except Exception as e:
+        raise Failure(f"epr-history-raises:flush:{type(e).__name__}", case, f"final flush: {type(e).__name__}: {(str(e).splitlines() or [''])[0][:200]}")
+    return {"done": done}
+
+
 def shard(ctx: Ctx) -> None:
     stt = ctx.stats
+    n_epr = 12 if ctx.tier == "quick" else 200
+
+    def body_epr(case):
+        check_epr(case)
+        meta = case["meta"]
+        kinds = [k for k, _n in case["epr_ops"]]
+        nt = any(kinds.count(k) >= 17 for k in set(kinds))
+        stt.labels["operations-total"] += meta["ops"]
+        stt.case(case, nt, ["epr-history", f"mode:{meta['mode']}", case["hardware"]] + ([f"kind:{meta['kind']}"] if meta["mode"] == "one-kind" else []), sample={"meta": meta, "first": case["epr_ops"][:4]})
+
+    ctx.search(st_epr_history(60 if ctx.tier == "quick" else 200), body_epr, n_epr, name="c14-epr", salt=5)
     n = 30 if ctx.tier == "quick" else 600
     max_ops = 120 if ctx.tier == "quick" else 400
 
@@ -127,6 +211,9 @@ def shard(ctx: Ctx) -> None:
 
 def replay(case):
     try:
+        if "epr_ops" in case:
+            check_epr(case)
+            return None
         check(case)
     except hp.OutOfDomainProgram:
         return None
